@@ -56,6 +56,12 @@ const char *opLabel(char k)
 {
   switch (k)
   {
+  case 'Q':
+    return "queue(move)";
+  case 'u':
+    return "tryQueue(move)";
+  case 'U':
+    return "tryQueue(move,timeout)";
   case 'q':
     return "queue";
   case 't':
@@ -113,9 +119,18 @@ void runScenario(const Scn &sc)
           case 'q':
           case 't':
           case 'T':
+          case 'Q': // the rvalue overloads are separate code in blocking_queue.hpp
+          case 'u':
+          case 'U':
           {
             uint64_t st = mc_step();
-            bool ok = k == 'q' ? q->queue(item) : k == 't' ? q->tryQueue(item) : q->tryQueue(item, std::chrono::milliseconds(10));
+            int moved = item;
+            bool ok = k == 'q'   ? q->queue(item)
+                      : k == 't' ? q->tryQueue(item)
+                      : k == 'T' ? q->tryQueue(item, std::chrono::milliseconds(10))
+                      : k == 'Q' ? q->queue(std::move(moved))
+                      : k == 'u' ? q->tryQueue(std::move(moved))
+                                 : q->tryQueue(std::move(moved), std::chrono::milliseconds(10));
             puts[ti].push_back(PutRec{item, ok, st});
             mc_obs("%s %s(%d)=%d", ts.name.c_str(), opLabel(k), item, int(ok));
             break;
@@ -256,6 +271,14 @@ std::vector<Scn> scenarios()
     {"timed", 1, {{"P", "TT"}, {"C", "DD"}}},
     {"timed_close", 1, {{"P", "qT"}, {"C", "D"}, {"X", "x"}}},
     {"size_probe", 1, {{"P", "qq"}, {"C", "dd"}, {"S", "ss"}}},
+    // the same shapes through the rvalue (move) overloads
+    {"mv_p_full_close", 1, {{"P", "QQ"}, {"X", "x"}}},
+    {"mv_p2_c2_cap1", 1, {{"P", "QQ"}, {"C", "dd"}}},
+    {"mv_2p_2c", 1, {{"P1", "Q"}, {"P2", "Q"}, {"C1", "d"}, {"C2", "d"}}},
+    {"mv_p_c_close", 1, {{"P", "QQ"}, {"C", "dd"}, {"X", "x"}}},
+    {"mv_try_mix", 2, {{"P", "uuu"}, {"C", "yd"}}},
+    {"mv_timed", 1, {{"P", "UU"}, {"C", "DD"}}},
+    {"mv_timed_close", 1, {{"P", "QU"}, {"C", "D"}, {"X", "x"}}},
   };
 }
 } // namespace
